@@ -692,8 +692,8 @@ func (vc *VC) convert(fr *Frame, st *State, x Term, from, to types.Type) Term {
 			return x
 		}
 		if ti.bits == 64 && ti.signed {
-			// uint64 -> int64: treated as mathematical unless huge (assumption)
-			return x
+			// uint64 -> int64 / int: exact two's-complement reinterpretation (values from 2^63 up become negative)
+			return Ite(Ge(x, Term{"9223372036854775808", SInt}), Sub(x, Term{"18446744073709551616", SInt}), x)
 		}
 		return wrapInt(x, ti)
 	case fok && tb != nil && tb.Info()&types.IsFloat != 0:
